@@ -54,6 +54,10 @@ def run(ctx) -> None:
              "with the position component and the wave-vector component of the same axis")
     ctx.rule("R-ANGLES", "the CTF coefficients are evaluated at alpha = |k|*wavelength and phi = arctan2(k_y, k_x), the "
              "same convention as the real-space probe's angular grid (grid.polar_spatial_frequencies)")
+    ctx.rule("R-FRESHCOEFF", "inside the CTF / scan-position loops of _batch_reduce_to_measurements every in-place write "
+             "(augmented assignment, subscript store, out=) other than the store into the output measurement goes to "
+             "a buffer created in the same iteration (ownership class FRESH of sa/rules/arrayown.py): coefficients "
+             "hoisted out of the CTF loop and multiplied in place would carry CTF member k into member k+1")
     ctx.rule("R-CONTRACT", "the reduction contracts the coefficient's last axis with the plane-wave axis (-3) of the "
              "S-matrix in both the cropped and the uncropped arm, and CTF and position coefficients are combined by "
              "multiplication along their last (plane-wave) axis")
@@ -175,6 +179,34 @@ def run(ctx) -> None:
     ctx.check(okg, "R-ANGLES", f"{g.qualname}:phi", g.loc(at2[0]), f"real-space convention arctan2({', '.join(args)})",
               f"real-space azimuth is arctan2({', '.join(args)}): differs from the PRISM convention arctan2(k_y, k_x)",
               key_detail="grid-phi")
+
+    # ---------------- R-FRESHCOEFF (before the anchors of R-CONTRACT: a violation decides even if those are lost)
+    from ..rules import inplace
+    from ..rules.arrayown import FRESH, Ownership
+
+    brm = repo.method(SM, "SMatrixArray", "_batch_reduce_to_measurements")
+    own = Ownership(repo)
+    dfb = own.df_of(brm)
+    out_loops = [l for l in walk_no_nested(brm.node) if isinstance(l, ast.For) and isinstance(l.iter, ast.Call)
+                 and call_name(l.iter) == "zip" and isinstance(l.target, ast.Tuple)]
+    out_vars = {e.id for l in out_loops for e in l.target.elts if isinstance(e, ast.Name)}
+    n_sites = 0
+    for site in inplace.sites(dfb):
+        idx, st, name, kind, text = site
+        if not dfb.cfg.nodes[idx].loops:
+            continue  # set-up before the CTF / scan loops
+        if name in out_vars and kind == "store":
+            continue  # measurement.array[indices] = ... : the designated output
+        if name in ("pbar",):
+            continue
+        cls_ = inplace.classes(own, brm, site)
+        n_sites += 1
+        ctx.check(cls_ <= {FRESH}, "R-FRESHCOEFF", f"{brm.qualname}:in-place on per-iteration buffers only", brm.loc(st),
+                  f"`{text}` writes a buffer created in the same iteration",
+                  f"`{text}` modifies in place a buffer of class {sorted(cls_)} inside the CTF/scan loops: the buffer "
+                  "outlives the iteration, so the coefficients of CTF member k are multiplied into what member k+1 "
+                  "starts from — the reduction is no longer <probe_k, S> for each member", key_detail="fresh")
+    ctx.ok("R-FRESHCOEFF", f"{brm.qualname}:scan", brm.where, f"{n_sites} in-place site(s) inside the loops examined")
 
     # ---------------- R-CONTRACT
     rw = repo.method(SM, "SMatrixArray", "_reduce_to_waves")
